@@ -11,40 +11,25 @@ def keep(line):
 def superset_at_the_wrap(spec, impl, case_text):
     """Used only when the refinement proof no longer checks and the snapshot SPECIFICATION has become the oracle of the search
     for a failing input.  The specification skips every callback added during an invocation; the property allows an
-    invocation that is in progress when the counter wraps to call such callbacks as well.  So against the specification
-    an implementation trace is accepted when, invocation by invocation (calls carry the invocation's argument), it
-    contains the specification's calls in order, and every additional call is of a callback that some callback of the
-    case adds (i.e. one added during an invocation; a callback id may be added more than once); all other trace lines are
-    equal."""
+    invocation that is in progress when the counter wraps to call such callbacks as well — and what those callbacks then do
+    (add, remove, report) changes the rest of the trace in ways the specification does not follow.  So against the
+    specification an implementation trace is accepted when it is equal, or when the FIRST line in which it differs is the
+    call of a callback that some callback of the case adds (i.e. one added during an invocation): up to there the two agree,
+    and from there on the specification is no longer an oracle for this case."""
     import re
-    def split(tr):
-        calls, rest = {}, []
-        for l in tr:
-            w = l.split()
-            if len(w) == 3 and w[0] == 'call':
-                calls.setdefault(w[2], []).append(w[1])
-            else:
-                rest.append(l)
-        return calls, rest
-    sc, sr = split(spec)
-    ic, ir = split(impl)
-    if sr != ir or set(sc) - set(ic):
-        return False
+    if spec == impl:
+        return True
     added = set()
     for line in case_text.split('\n'):
         if line.startswith('cb '):
             for m in re.finditer(r'\b(?:append|prepend|insert)\s+\d+\s+(\d+)', line):
                 added.add(m.group(1))
-    for arg, got in ic.items():
-        want = sc.get(arg, [])
-        k, extras = 0, []
-        for c in got:
-            if k < len(want) and c == want[k]:
-                k += 1
-            else:
-                extras.append(c)
-        if k != len(want) or any(c not in added for c in extras):
-            return False
+    for j in range(max(len(spec), len(impl))):
+        a = spec[j] if j < len(spec) else None
+        b = impl[j] if j < len(impl) else None
+        if a != b:
+            w = (b or '').split()
+            return len(w) == 3 and w[0] == 'call' and w[1] in added
     return True
 
 
